@@ -52,7 +52,10 @@ type symRef struct {
 
 // timeVal is an instant: nanoseconds since the Unix epoch as a 64-bit term.
 // The zero time.Time (year 1) does not fit; it is the sentinel minInt64.
-type timeVal struct{ ns *Term }
+type timeVal struct {
+	ns  *Term
+	loc string // "" = UTC; else the name of a zone of the tz database
+}
 
 var zeroTimeNs = uint64(1) << 63 // math.MinInt64
 
@@ -131,7 +134,7 @@ func isString(t types.Type) bool {
 
 func zero(t types.Type) value {
 	if isTimeType(t) {
-		return timeVal{BV(zeroTimeNs, 64)}
+		return timeVal{ns: BV(zeroTimeNs, 64)}
 	}
 	switch t := t.(type) {
 	case *types.Basic:
